@@ -679,9 +679,11 @@ package builder
 //@ extern error.Error(e error) (m string)
 //@   pure
 //@   ensures m == errMsg(e)
+// a parser error prints as "<prefix>: <message of the wrapped error>" (C11)
 //@ func (p *parserError) Error() (m string)
 //@   requires [ctx] p != nil && p.Inner != nil
 //@   pure
+//@   ensures [format C11] m == p.prefix + ": " + errMsg(p.Inner)
 //@   safety C11
 
 // KeptE(o, j, a, n): a[0..n) are the elements of o[0..j) whose message occurs for the first time, in order.
@@ -856,6 +858,13 @@ package builder
 //@ #else
 //@ frameset PSstate0 = all Stats.ExprCnt
 //@ #endif
+// what the caller reads (C11): a list of one error prints as that error, an empty list as ""
+//@ func (e errList) Error() (res string)
+//@   requires [typed] forall k int :: {e[k]} 0 <= k && k < len(e) ==> e[k] != nil
+//@   ensures [empty C11] len(e) == 0 ==> res == ""
+//@   ensures [single C11] len(e) == 1 ==> res == errMsg(e[0])
+//@   safety C11
+//@   frame C18
 // Parse: the API entry. Every non-nil error it returns is a non-empty list of parser errors (C11).
 //@ func Parse(filename string, b []byte, opts []Option) (val any, err error)
 //@   modifies all Stats.ExprCnt, all map[string]any, all storeDict, PSdbg0, PSmemo0, PSstate0
